@@ -8,7 +8,8 @@ from C05 import canon
 ID = 'C07'
 RULE = ('merge cases: record streams sorted by (chromosome, start, end) over 1-3 chromosomes whose coordinate ranges '
         'interleave, with duplicates, nested records ending below the running end, book-ended records, 1-base gaps and '
-        'zero-length records; the groups handed to the merge closure (record ids, in order) and the merged ranges are '
+        'zero-length records, chromosome names sharing a 16/32/64/255-byte prefix, and a few connected runs of 1000-4200 '
+        'records; the groups handed to the merge closure (record ids, in order) and the merged ranges are '
         'compared; non-trivial = a chromosome change inside the stream and a nested record; distinct by case text')
 UNIQUE_NOTE = 'merge_groups_spec + groups_unique: the partition into maximal chained groups is unique'
 EXHAUSTIVE = {}
@@ -34,6 +35,25 @@ def gen(rng, tier):
         mode = rng.choice(['small', 'small', 'small', 'wide', 'medium'])
         regs = sorted_stream(rng, mode, rng.choice([0, 1, 2, 3, 5, 8, 12]))
         yield Case(sx.dump(['merge', ['recs'] + [[R.h(c), s, e, i] for i, (c, s, e) in enumerate(regs)]]), nontrivial(regs), mode)
+    # connected runs far larger than any internal batch threshold, then a book-ended record, a 1-base gap, a new chromosome
+    for k in range(6 if tier == 'quick' else 40):
+        N = rng.choice([1023, 1024, 1025, 2048, 2049, 4096, 4100, rng.randint(1000, 4200)])
+        c = rng.choice([b'chr1', b'chr2'])
+        if k % 3 == 0:
+            recs = [(c, 0, 10)] * N
+        else:
+            recs = sorted((c, s0, s0 + rng.randint(0, 9)) for s0 in (rng.randint(0, N // 4) for _ in range(N)))
+        # make it one connected run: each record starts at or before the running end
+        run, end = [], None
+        for (cc, s0, e0) in recs:
+            if end is not None and s0 > end:
+                s0 = end
+                e0 = max(e0, s0)
+            run.append((cc, s0, e0)); end = e0 if end is None else max(end, e0)
+        run.sort()
+        tail = [(c, end, end + 3), (c, end + 4, end + 4), (c, end + 4, end + 9), (b'chr3', 0, 1)]
+        allr = run + tail
+        yield Case(sx.dump(['merge', ['recs'] + [[R.h(ch), s_, e_, i] for i, (ch, s_, e_) in enumerate(allr)]]), True, 'big-run')
     if tier == 'thorough':
         import itertools
         c1, c2 = R.h(b'chr1'), R.h(b'chr2')
